@@ -75,7 +75,8 @@ class P:
                   "echo $(a\nb)", "echo \"`a`\" $(( $(b) ))", "B ", "echo '$(' "]
         tmpl = ["N x; @; y", "N x | @| y", "N x @)", "N x; @fi", "N && @&& x", "  N x; @; y", "N; N @)", "N $(c; @; d)", "if N; then @fi",
                 "N x; @do", "N <<@< E", "N x; ( @)"]
-        bad_values = ["echo $(a; ; b)", "echo $(a", "echo `a", "echo $((1+", "echo ${x", "echo \"$(a", "echo $(a))", "echo $(a) ; ;", "echo $(if)", "echo $(a) \"${y:-$(b\""]
+        bad_values = ["echo $(a; ; b)", "echo $(a", "echo `a", "echo $((1+", "echo ${x", "echo \"$(a", "echo $(a))", "echo $(a) ; ;", "echo $(if)", "echo $(a) \"${y:-$(b\"",
+                      "( $(b)", "( $((1))", "{ $(b)", "x $(( $(b) )) (", "( \"$(b)\" $(c)", "if $(b)"]
         al, aexp = [], {}
         for v in values:
             for t in tmpl:
@@ -85,9 +86,12 @@ class P:
                 aexp[c_] = (1, t.index("@") + 1)
         for v in bad_values:
             for t in ("N", "N x", "  N", "a; N y", "N\n", "if N; then :; fi", "B N"):
-                c_ = G.pcase(t + ("" if t.endswith("\n") else "\n"), aliases={"N": v, "B": "echo $(z) "})
-                al.append(c_)
-                aexp[c_] = None
+                if t == "B N" and v.startswith(("{", "if", "(")):
+                    continue          # (as an argument the value is no command)
+                for end_ in ("\n", ""):
+                    c_ = G.pcase(t.rstrip("\n") + end_, aliases={"N": v, "B": "echo $(z) "})
+                    al.append(c_)
+                    aexp[c_] = None
 
         def alias_ok(c, o):
             if not (o.startswith("ok ") and fields(o)["E"].startswith("syn:")):
